@@ -1,7 +1,7 @@
 (** C17 — clean files are left alone and formatting is stable. Pinned statements only.
     The loop model is parametric in the oracles: [crawl] (rule bodies + noqa mask), [apply]
     (apply_fixes), [key] (the previous_versions tuple); the theorems hold for every instance. *)
-From Sq Require Import Patch.Model Patch.Proofs Fix.Model Fix.Proofs Fix.Clean.
+From Sq Require Import Patch.Model Patch.Proofs Fix.Model Fix.Proofs Fix.Clean Fix.MaskModel Fix.MaskProofs.
 
 (** No rule has a fix on the initial tree => the loop returns the initial tree, both phases
     leaving after one pass that changed nothing. *)
@@ -67,3 +67,40 @@ Theorem C17_converged_from_exits : forall (T K R F : Type) (key : T -> K) (key_e
   forall r : R, In r rules -> fix_compat r = true -> crawl r (tree T K R sp') = None.
 Proof. exact converged_from_exits. Qed.
 Print Assumptions C17_converged_from_exits.
+
+(** Clause 1 with the noqa mask inside the model: the loop's [crawl] is "the fixes of the results of [Rule::crawl] that
+    the file's IgnoreMask does not silence", and what lint reports is those same unsilenced results. Lint reports
+    nothing (no result at all, or every result silenced by a directive) => fix returns the initial tree. *)
+Theorem C17_lint_clean_untouched : forall (T K R E X : Type) (key : T -> K) (key_eqb : K -> K -> bool)
+    (crawl_raw : R -> T -> list E) (masked : E -> bool) (fixes_of : E -> list X) (apply : T -> list X -> T)
+    (rule_phase : R -> phase) (fix_compat : R -> bool) (rules : list R) (t0 : T),
+  report T R E crawl_raw masked rules t0 = [] ->
+  final T K R (list X) key key_eqb (crawl_m T R E X crawl_raw masked fixes_of) apply rule_phase fix_compat rules t0 = t0 /\
+  snd (fst (run T K R (list X) key key_eqb (crawl_m T R E X crawl_raw masked fixes_of) apply rule_phase fix_compat rules t0)) = NoChange /\
+  snd (run T K R (list X) key key_eqb (crawl_m T R E X crawl_raw masked fixes_of) apply rule_phase fix_compat rules t0) = NoChange.
+Proof. exact lint_clean_is_untouched. Qed.
+Print Assumptions C17_lint_clean_untouched.
+
+(** The first event of a fix run: a batch of the first rule (registry order) that has an unsilenced result carrying a
+    fix on the initial tree, or the end of a pass that changed nothing. *)
+Theorem C17_first_batch_rule : forall (T K R E X : Type) (key : T -> K) (key_eqb : K -> K -> bool)
+    (crawl_raw : R -> T -> list E) (masked : E -> bool) (fixes_of : E -> list X) (apply : T -> list X -> T)
+    (rule_phase : R -> phase) (fix_compat : R -> bool) (rules : list R) (t0 : T),
+  match first_fixing T R E X crawl_raw masked fixes_of rules t0 with
+  | Some r => exists acc : bool,
+      first_event T K R E X key key_eqb crawl_raw masked fixes_of apply rule_phase fix_compat rules t0 = Some (Batch R Main 0 r acc)
+  | None =>
+      first_event T K R E X key key_eqb crawl_raw masked fixes_of apply rule_phase fix_compat rules t0 = Some (PassEnd R Main 0 false)
+  end.
+Proof. exact first_batch_rule. Qed.
+Print Assumptions C17_first_batch_rule.
+
+(** ... so the rule of the first batch has a violation that lint reports, and that violation carries a fix:
+    fix never starts from something lint does not show. *)
+Theorem C17_first_batch_is_reported : forall (T K R E X : Type) (key : T -> K) (key_eqb : K -> K -> bool)
+    (crawl_raw : R -> T -> list E) (masked : E -> bool) (fixes_of : E -> list X) (apply : T -> list X -> T)
+    (rule_phase : R -> phase) (fix_compat : R -> bool) (rules : list R) (t0 : T) (r : R) (acc : bool),
+  first_event T K R E X key key_eqb crawl_raw masked fixes_of apply rule_phase fix_compat rules t0 = Some (Batch R Main 0 r acc) ->
+  exists e : E, In (r, e) (report T R E crawl_raw masked rules t0) /\ fixes_of e <> [].
+Proof. exact first_batch_is_reported. Qed.
+Print Assumptions C17_first_batch_is_reported.
